@@ -36,7 +36,10 @@ RULE = (
     "C[i,j,k]==C[j,i,-k], positive lags == one-sided counts, centre == max of the two zero-lag "
     "counts; firing_rate == outer(counts,counts)*bin/duration with zero rows for empty ids. "
     "Non-trivial: >=2 equal times, or a pair exactly in the last kept bin or the first excluded "
-    "lag, or >=2 clusters present.")
+    "lag, or >=2 clusters present."
+    ' Later additions: times on both sides of zero, read-only inputs, an id array reversed in pla'
+    'ce between two calls, bins of 13-250 samples with pairs whole bins apart, seconds-long bins '
+    'at 32 768 Hz, trains of 400 000 (thorough 2**20+77) spikes.')
 ASSUMPTIONS = ['sample rates are powers of two so that times*rate is exact']
 
 
